@@ -270,9 +270,12 @@ class ViralGen:
                     opts.append(('%s = "%s"' % (v, c), '(bin eq (col %s) (const %s))' % (name_sx(v), enc_value(c))))
                 opts.append(('isnull(%s)' % v, '(un isnull (col %s))' % name_sx(v)))
                 opts.append(('not isnull(%s)' % v, '(un not (un isnull (col %s)))' % name_sx(v)))
-            i, t = r.choice(node.ids)
-            c = r.choice([1, 2]) if t == 'Integer' else r.choice(['a', 'b'])
-            opts.append(('%s <> %s' % (i, vtl_const(c)), '(bin ne (col %s) (const %s))' % (name_sx(i), enc_value(c))))
+            if node.ids:
+                i, t = r.choice(node.ids)
+                c = r.choice([1, 2]) if t == 'Integer' else r.choice(['a', 'b'])
+                opts.append(('%s <> %s' % (i, vtl_const(c)), '(bin ne (col %s) (const %s))' % (name_sx(i), enc_value(c))))
+            if not opts:
+                return None
             cv, cs = r.choice(opts)
             return '%s[filter %s]' % (X, cv), '(filter %s %s)' % (dsx, cs), N(), k
         if k == 'calc':
@@ -357,7 +360,7 @@ class ViralGen:
             return ('%s %s %s' % (a.name, op, b.name), '(vzip (ds %s) (ds %s) (bin %s hole hole2) "bool_var")' % (a.name, b.name, sxop),
                     N(ids=ids, meas=[('bool_var', 'Boolean')], viral=viral, numeric=False), k)
         if k in ('aggr', 'aggrc'):
-            g = r.choice(['by', 'by', 'except', 'none'] if len(node.ids) > 1 else ['by', 'none', 'none'])
+            g = r.choice(['by', 'by', 'except', 'none'] if len(node.ids) > 1 else ['by', 'none', 'none'] if node.ids else ['none'])
             if g == 'none':
                 gids, gv, gs = [], '', 'none'
             else:
